@@ -5,4 +5,6 @@ g_Patch == {<<"a.B", "c.D">>}
 g_Defined == {}
 g_InPkg == {}
 g_Importable == {}
+g_DataVers == {1}
+g_DCVers == {1}
 ====
